@@ -1,7 +1,7 @@
 (* C20 — Accepted field values conform to the declared type.
    [live] = the coercion tables and issubclass matrix translated from the live source on every run. *)
 From Pydra Require Import Base.Prelude Model.Typing Spec.Typing Proofs.Typing Proofs.TypingIdem Proofs.TypingNss.
-From Pydra Require Import Generated.TypingTables Proofs.TypingLive.
+From Pydra Require Import Generated.TypingTables Proofs.TypingLive Proofs.TypingSpec.
 
 (* every accepted value conforms to the declared type, element types included: all types, all values,
    both superclass_auto_cast settings, any file system *)
@@ -63,3 +63,8 @@ Theorem C20_partial :
     forall v v', coerce live W sac t v = Ok v' -> nss f20_pairs v v' = true.
 Proof. exact live_nss_partial. Qed.
 Print Assumptions C20_partial.
+
+(* the executable spec evaluated on the correspondence cases decides [conforms] *)
+Theorem C20_spec_decides : forall (t : ty) (v : val), conformsb live t v = true <-> conforms live t v.
+Proof. exact (conformsb_spec live). Qed.
+Print Assumptions C20_spec_decides.
